@@ -14,12 +14,14 @@ reused: ONE real TrainLoss / ValLoss object taken through two consecutive call s
   model predicts after the first sequence, driver op c19.reused).  oracle: the object's best_model
   at the end of the second sequence is one of the second sequence's models.  Plus real ml.train
   called twice with one condition object.
-non-finite losses: histories over {0,1,2,3,nan,inf} with at least one NaN / +inf entry, driven call by
-  call through the real classes in all four scalar representations.  correspondence: the Lean
+non-finite losses: histories over {0,1,2,3,nan,inf,-inf} with at least one NaN / +inf / -inf entry, driven
+  call by call through the real classes in all four scalar representations.  correspondence: the Lean
   FLOAT-SHAPED machine (`pStepF` over `FV Rat`, best initialised to inf; driver op c19.run_f).
-  oracle: the property's sentence with "a NaN or +inf loss never improves on anything" (Python
-  reference, cross-checked with the Lean spec `trailingF` / `argBestF`, op c19.spec_f).  Plus real
-  ml.train runs whose scripted losses become NaN: must stop and return the best finite-loss model.
+  oracle: the property's sentence with "a NaN or +inf loss never improves on anything; a -inf loss
+  improves on every best but -inf, and nothing improves on a -inf best" (Python reference,
+  cross-checked with the Lean spec `trailingF` / `argBestF` / `bestFV`, op c19.spec_f).  Plus real
+  ml.train runs whose scripted losses become NaN (must stop and return the best finite-loss model) or
+  hit -inf (must stop patience+1 epochs later and return the model of the -inf epoch).
 """
 from __future__ import annotations
 
@@ -36,8 +38,8 @@ REPS = ["pyfloat", "npfloat32", "npfloat64", "jax"]
 # 3/2 exceeds the alphabet's smallest step, so some decreases do NOT count as improvements
 DELTAS = (Fraction(0), Fraction(1, 2), Fraction(3, 2))
 # family "non-finite losses": a diverged training reports NaN (or +inf) as its epoch loss
-NAN, INF = "nan", "inf"
-NF_ALPHABET = ALPHABET + [NAN, INF]
+NAN, INF, NINF = "nan", "inf", "-inf"
+NF_ALPHABET = ALPHABET + [NAN, INF, NINF]
 NF_DELTAS = (Fraction(0), Fraction(1, 2))
 
 
@@ -46,12 +48,12 @@ def is_finite(x):
 
 
 def jloss(x):
-    """loss for the driver: [num, den] or the strings "nan" / "inf" """
+    """loss for the driver: [num, den] or the strings "nan" / "inf" / "-inf" """
     return x if isinstance(x, str) else jrat(x)
 
 
 def parse_loss(t):
-    return t if t in (NAN, INF) else Fraction(t)
+    return t if t in (NAN, INF, NINF) else Fraction(t)
 
 
 def decoy_of(x):
@@ -62,7 +64,7 @@ def decoy_of(x):
 def conv(rep, x):
     import jax.numpy as jnp
 
-    v = float(x)  # Fraction, or the strings "nan" / "inf"
+    v = float(x)  # Fraction, or the strings "nan" / "inf" / "-inf"
     if rep == "pyfloat":
         return v
     if rep == "npfloat32":
@@ -88,18 +90,35 @@ def oracle(hist, patience, delta):
 
 
 def oracle_nf(hist, patience, delta):
-    """the property's sentence on a history with NaN / +inf entries: a NaN or +inf loss never
-    improves on anything (it is a non-improving epoch); the best is the best finite loss"""
-    best = None
+    """the property's sentence on a history with NaN / +inf / -inf entries: a NaN or +inf loss never
+    improves on anything (it is a non-improving epoch); a -inf loss improves (by more than any min_delta)
+    on every best value except -inf; on a best of -inf nothing improves, not even another -inf
+    (-inf is not below -inf).  Until the first -inf the best is the best finite loss."""
+    best = None  # None (nothing yet), a Fraction, or NINF
     since = 0
     arg = 0
     out = []
     for i, x in enumerate(hist):
-        if is_finite(x) and (best is None or x < best - delta):
+        if best == NINF or x in (NAN, INF):
+            improved = False
+        elif x == NINF:
+            improved = True
+        else:
+            improved = best is None or x < best - delta
+        if improved:
             best, since, arg = x, 0, i + 1
         else:
             since += 1
         out.append((since > patience, arg))
+    return out
+
+
+def best_nf(hist, delta):
+    """tracked best after each loss (the value of the epoch oracle_nf names), as the driver prints it"""
+    out = []
+    for i in range(len(hist)):
+        arg = oracle_nf(hist[: i + 1], 0, delta)[-1][1]
+        out.append(INF if arg == 0 else jloss(hist[arg - 1]))
     return out
 
 
@@ -141,13 +160,16 @@ def check_history(ctx: Ctx, ml, cls_name, patience, delta, rep, hist, model_out,
     lean = "pStep"
     if family == "nonfinite":
         case["family"] = family
-        # both branches of the test are taken: a finite loss is tracked and a NaN / +inf loss is refused
+        # both branches of the test are taken: a finite loss is tracked and a NaN / +inf loss is refused;
+        # with a -inf entry: the first -inf is tracked and at least one later loss is refused
         nontriv = len(hist) >= 2 and any(is_finite(x) for x in hist)
-        what = ("verdicts/best_model differ from the specification on a history with NaN / +inf losses "
-                "(a NaN or +inf loss is a non-improving epoch)")
+        if NINF in hist:
+            nontriv = hist.index(NINF) < len(hist) - 1
+        what = ("verdicts/best_model differ from the specification on a history with NaN / +inf / -inf losses "
+                "(a NaN or +inf loss is a non-improving epoch; the first -inf loss is the final best)")
         lean = "pStepF (float-shaped machine)"
         kinds = ctx.notes.setdefault("nonfinite_samples", {})
-        kind = ("NaN" if NAN in hist else "") + ("+inf" if INF in hist else "") + \
+        kind = ",".join(k for k, t in (("NaN", NAN), ("+inf", INF), ("-inf", NINF)) if t in hist) + \
             ("; before any finite loss" if not is_finite(hist[0]) else "; after a finite best")
         if kind not in kinds and len(hist) >= 3 and patience == 1:
             kinds[kind] = {k: case[k] for k in ("class", "patience", "min_delta", "rep", "losses", "impl")}
@@ -206,8 +228,8 @@ def nf_calls(mon, hist):
 
 
 def nonfinite_histories(ctx: Ctx, ml, max_len):
-    """family 'non-finite losses': every history over {0,1,2,3,nan,inf} up to max_len with at least
-    one NaN / +inf entry"""
+    """family 'non-finite losses': every history over {0,1,2,3,nan,inf,-inf} up to max_len with at least
+    one NaN / +inf / -inf entry"""
     drv = ctx.driver
     for n in range(1, max_len + 1):
         for hist in itertools.product(NF_ALPHABET, repeat=n):
@@ -221,20 +243,31 @@ def nonfinite_histories(ctx: Ctx, ml, max_len):
                     sp = drv.call("c19.spec_f", patience=patience, delta=jrat(delta),
                                   losses=[jloss(x) for x in hist])
                     orc = oracle_nf(hist, patience, delta)
-                    if sp["verdicts"] != [v for v, _ in orc] or sp["argbest"] != [a for _, a in orc]:
-                        ctx.violation("correspondence", "python oracle differs from Lean spec (trailingF/argBestF)",
+                    if sp["verdicts"] != [v for v, _ in orc] or sp["argbest"] != [a for _, a in orc] \
+                            or sp["best"] != best_nf(hist, delta):
+                        ctx.violation("correspondence", "python oracle differs from Lean spec (trailingF/argBestF/bestFV)",
                                       {"family": "nonfinite-spec", "losses": [str(x) for x in hist],
                                        "patience": patience, "min_delta": str(delta), "lean": sp, "oracle": orc})
                     for cls_name, mon in (("TrainLoss", "train"), ("ValLoss", "val")):
                         mo = drv.call("c19.run_f", patience=patience, delta=jrat(delta), monitor=mon,
                                       m0=None, start=0, calls=nf_calls(mon, hist))
+                        # the Lean machine's best loss after every call is the spec's bestFV (pRunF_spec_nan)
+                        if mo["best_losses"][1:] != sp["best"]:
+                            ctx.violation("correspondence", "Lean pStepF best loss differs from the Lean spec bestFV",
+                                          {"family": "nonfinite-spec", "losses": [str(x) for x in hist],
+                                           "patience": patience, "min_delta": str(delta), "lean": sp, "machine": mo})
                         # all four representations; on the longest thorough histories a rotating one + jax
                         reps = REPS if (ctx.tier == "quick" or n < max_len) else \
                             [REPS[(n + patience + len([x for x in hist if is_finite(x)])) % 4], "jax"]
+                        # histories with a -inf entry: all four representations below the longest length, on
+                        # the longest a rotating one (quick) / a rotating one + jax (thorough)
+                        if NINF in hist and n == max_len and ctx.tier == "quick":
+                            reps = [REPS[(n + patience + len([x for x in hist if is_finite(x)])
+                                          + hist.index(NINF)) % 4]]
                         for rep in dict.fromkeys(reps):
                             ctx.hist("nonfinite_rep", rep)
                             ctx.hist("nonfinite_len", n)
-                            ctx.hist("nonfinite_kind", "+".join(k for k in (NAN, INF) if k in hist))
+                            ctx.hist("nonfinite_kind", "+".join(k for k in (NAN, INF, NINF) if k in hist))
                             check_history(ctx, ml, cls_name, patience, delta, rep, hist, mo, family="nonfinite")
 
 
@@ -248,6 +281,18 @@ def nonfinite_train_configs():
         ("ValLoss", 1, Fraction(0), [9, 5, 4, 6, NAN, NAN, NAN, NAN], True),
         ("ValLoss", 0, Fraction(1, 2), [7, 6, NAN, NAN, NAN, NAN], True),
         ("TrainLoss", 1, Fraction(1, 2), [8, 6, 7, 7, NAN, NAN, NAN, NAN], True),
+    ]
+
+
+def ninf_train_configs():
+    """(condition, patience, min_delta, parameter script, with validation).  The parameter reaches -inf;
+    the scripted optimizer's next update is `next - (-inf)`, so the parameter is NaN from the following
+    epoch on (the scripts say so).  ValLoss sees the loss of the parameter AFTER the epoch's update: the
+    -inf epoch is the last improvement and its model (w = -inf) is the one to hand back, patience + 1
+    epochs later."""
+    return [
+        ("ValLoss", 1, Fraction(0), [9, 5, NINF, NAN, NAN, NAN, NAN], True),
+        ("ValLoss", 2, Fraction(1, 2), [7, NINF, NAN, NAN, NAN, NAN, NAN], True),
     ]
 
 
@@ -277,9 +322,9 @@ def nonfinite_training_runs(ctx: Ctx, configs):
         if not stopped:
             ctx.violation("oracle", "ml.train did not terminate although the loss is NaN from some epoch on "
                           "(runaway guard hit)", case)
-        elif epoch != stop_at or not (is_finite(want) and got_w == float(want)):
-            ctx.violation("oracle", "ml.train on a loss history that turns NaN stopped at the wrong epoch or did "
-                          "not return the best finite-loss model", case)
+        elif epoch != stop_at or not ((is_finite(want) or want == NINF) and got_w == float(want)):
+            ctx.violation("oracle", "ml.train on a loss history that turns NaN / hits -inf stopped at the wrong epoch "
+                          "or did not return the model of the best (finite or -inf) loss", case)
         elif not ok_model:
             ctx.violation("correspondence", "Lean trainLoopF differs from ml.train / the Python reference on a "
                           "history that turns NaN", case)
@@ -675,20 +720,23 @@ def run(ctx: Ctx):
         "them; stop epochs and best_model ids compared with Lean trainLoopReused from the predicted stale "
         "state, oracle = the final best_model is one of the second sequence's models; and real ml.train "
         "called twice with one condition object (quick 2, thorough 5 configurations). "
-        "Family 'non-finite losses': all histories over {0,1,2,3,nan,inf} up to length (quick 4, thorough 5) that "
-        "contain at least one NaN / +inf entry x patience 0..3 x min_delta {0,1/2} x both classes x the four scalar "
-        "representations (float('nan'), numpy.float32, numpy.float64, 0-d jax array; two of them on the longest "
-        "thorough histories), driven call by call through the real classes and compared with the Lean float-shaped "
+        "Family 'non-finite losses': all histories over {0,1,2,3,nan,inf,-inf} up to length (quick 4, thorough 5) that "
+        "contain at least one NaN / +inf / -inf entry x patience 0..3 x min_delta {0,1/2} x both classes x the four scalar "
+        "representations (float('nan') / float('-inf'), numpy.float32, numpy.float64, 0-d jax array; two of them on the longest "
+        "thorough histories; one rotating representation on the longest quick histories that contain -inf), driven call by "
+        "call through the real classes and compared with the Lean float-shaped "
         "machine pStepF (best initialised to inf, IEEE-like comparison and subtraction) and with the property's "
-        "sentence read with 'a NaN or +inf loss never improves'; plus real ml.train runs (quick 2, thorough 4) "
-        "whose scripted parameter turns NaN, under the runaway guard. "
+        "sentence read with 'a NaN or +inf loss never improves; a -inf loss improves on every best except -inf, and "
+        "nothing improves on a best of -inf'; plus real ml.train runs (quick 2, thorough 4) "
+        "whose scripted parameter turns NaN, and (quick 1, thorough 2) whose parameter reaches -inf, under the runaway guard. "
         "A case is non-trivial when its history has length >= 2 and contains both an improvement after "
         "the first loss and a non-improvement (family 'reused': first sequence non-empty, i.e. the object is "
         "genuinely stale, and second sequence of length >= 2; family 'non-finite losses': length >= 2 with at "
-        "least one finite loss next to the NaN / +inf entries); distinct = distinct (class, patience, delta, rep, "
+        "least one finite loss next to the NaN / +inf entries, or, with a -inf entry, at least one loss after the "
+        "first -inf); distinct = distinct (class, patience, delta, rep, "
         "history or pair of histories)."
     )
-    ctx.assumptions = ["a loss of -inf is excluded (NaN and +inf losses are covered); min_delta is finite and >= 0",
+    ctx.assumptions = ["min_delta is finite and >= 0 (NaN, +inf and -inf LOSSES are covered)",
                        "float(x) of the alphabet values is exact (no rounding, no overflow to inf inside the arithmetic)"]
     ctx.trusted_extra = ["optax/equinox/jax pmap as used by ml.train (exercised, not modelled)"]
     max_len = 5 if ctx.tier == "quick" else 7
@@ -700,7 +748,8 @@ def run(ctx: Ctx):
     nf_len = 4 if ctx.tier == "quick" else 5
     nonfinite_histories(ctx, ml, nf_len)
     nonfinite_training_runs(ctx, nonfinite_train_configs()[: 2 if ctx.tier == "quick" else 4])
-    ctx.notes["nonfinite_scope"] = (f"all histories up to length {nf_len} over {{0,1,2,3,nan,inf}} with at least one "
+    nonfinite_training_runs(ctx, ninf_train_configs()[: 1 if ctx.tier == "quick" else 2])
+    ctx.notes["nonfinite_scope"] = (f"all histories up to length {nf_len} over {{0,1,2,3,nan,inf,-inf}} with at least one "
                                     "non-finite entry")
     ctx.exhaustive = True
     ctx.notes["exhaustive_scope"] = f"histories up to length {max_len} over a 4-value alphabet"
